@@ -196,13 +196,30 @@ def c01(X, src, mode="exec"):
     why = py_domain(src)
     if why:
         return None
+    import re as _re
+    lone_cr = False
+    if _re.search(r"\r(?!\n)", src):
+        # the known deviation is "a lone CR is whitespace, not a line end": it explains this input only if the parser
+        # behaves exactly as it does on the same text with a blank in place of each lone CR
+        def brief(k, p):
+            if k == "ok":
+                return ("ok", dump(p))
+            if isinstance(p, SyntaxError):
+                return (k, p.msg, p.lineno, p.offset, p.end_lineno, p.end_offset)
+            return (k,)
+        lone_cr = brief(*run_parse(X, src, mode)) == brief(*run_parse(X, _re.sub(r"\r(?!\n)", " ", src), mode))
     kind, tree = run_parse(X, src, mode)
     if kind != "ok":
         sig = exc_sig(tree) if isinstance(tree, BaseException) else None
-        return {"kind": "rejects-valid-python", "observed": [kind, sig], "expected": "tree equal to ast.parse"}
+        v = {"kind": "rejects-valid-python", "observed": [kind, sig], "expected": "tree equal to ast.parse"}
+        if lone_cr:
+            v["feature"] = "lone-cr-newline"
+        return v
     a, b = dump(tree), dump(ref)
     if a == b:
         return None
+    if lone_cr:
+        return {"kind": "tree-differs", "feature": "lone-cr-newline", "diff": first_diff(a, b)}
     if not src.isascii():
         b2 = dump(_byte_to_char_cols(ref, src))
         if a == b2:
@@ -250,8 +267,12 @@ def c02(X, src, mode="exec"):
         return None
     kind, tree = run_parse(X, src, mode)
     if kind == "ok":
-        return {"kind": "over-acceptance", "observed": dump(tree)[:300],
-                "expected": f"rejection (CPython: {ref.msg!r} at {ref.lineno}:{ref.offset})"}
+        v = {"kind": "over-acceptance", "observed": dump(tree)[:300],
+             "expected": f"rejection (CPython: {ref.msg!r} at {ref.lineno}:{ref.offset})"}
+        tk, toks = run_tokens(X, src)
+        if tk == "ok" and any(t.type == X.tokenize.Token.ERRORTOKEN and t.string.isspace() for t in toks):
+            v["feature"] = "whitespace-like-character-skipped"
+        return v
     return None
 
 
@@ -310,34 +331,63 @@ def _expected_ctx(tree):
 _SPANNED = (ast.stmt, ast.expr)
 
 
+def _asdl_fields():
+    """{node class name: {field: '*' | '?' | ''}} read from the ASDL signatures CPython puts into the class docstrings"""
+    import re as _re
+    out = {}
+    for name in dir(ast):
+        cls = getattr(ast, name)
+        if not (isinstance(cls, type) and issubclass(cls, ast.AST)) or not cls.__doc__:
+            continue
+        for m in _re.finditer(r"(\w+)\(([^)]*)\)", cls.__doc__):
+            if m.group(1) != name:
+                continue
+            fields = {}
+            for part in m.group(2).split(","):
+                part = part.strip()
+                mm = _re.match(r"(\w+)([*?]?)\s+(\w+)", part)
+                if mm:
+                    fields[mm.group(3)] = mm.group(2)
+            out[name] = fields
+    return out
+
+
+_ASDL = None
+
+
 def structure_violations(tree, src=None):
+    global _ASDL
+    if _ASDL is None:
+        _ASDL = _asdl_fields()
     out = []
     exp = _expected_ctx(tree)
     nlines = None
     lines = None
     if src is not None:
-        lines = src.split("\n")
+        lines = read_lines(src) or [""]
         nlines = len(lines)
     for n in ast.walk(tree):
         tn = type(n).__name__
+        spec = _ASDL.get(tn, {})
         for f in n._fields:
+            kind = spec.get(f, "")
             if not hasattr(n, f):
-                # optional fields default to None in 3.12 only when declared optional ('?')
-                out.append(f"{tn}.{f} missing")
-        ft = getattr(type(n), "_field_types", None)
-        for f in n._fields:
-            v = getattr(n, f, None)
-            if ft and f in ft:
-                t = ft[f]
-                if getattr(t, "__origin__", None) is list and not isinstance(v, list):
+                if kind == "":
+                    out.append(f"{tn}.{f} missing")
+                continue
+            v = getattr(n, f)
+            if kind == "*":
+                if not isinstance(v, list):
                     out.append(f"{tn}.{f} is {type(v).__name__}, list required")
-        if not ft:
-            for f in ("body", "orelse", "finalbody", "handlers", "targets", "elts", "values", "keys", "ops", "comparators",
-                      "args", "keywords", "decorator_list", "bases", "names", "items", "generators", "ifs", "cases",
-                      "patterns", "kwd_attrs", "kwd_patterns", "type_params", "posonlyargs", "kwonlyargs", "kw_defaults", "defaults"):
-                if f in n._fields and tn not in ("Lambda", "IfExp", "Call", "arguments") and not isinstance(getattr(n, f, []), list):
-                    out.append(f"{tn}.{f} is not a list")
-        if hasattr(n, "ctx") or "ctx" in n._fields:
+                elif tn != "Dict" and f not in ("kw_defaults",) and any(x is None for x in v):
+                    out.append(f"{tn}.{f} contains None")
+                elif any(isinstance(x, (tuple, list)) for x in v):
+                    out.append(f"{tn}.{f} contains a {type([x for x in v if isinstance(x, (tuple, list))][0]).__name__}")
+            elif kind == "" and v is None and f not in ("value", "kind") and tn not in ("Constant",):
+                out.append(f"{tn}.{f} is None but required")
+            elif isinstance(v, (tuple,)) and f != "value":
+                out.append(f"{tn}.{f} is a tuple")
+        if "ctx" in n._fields:
             want = exp.get(id(n), "Load")
             got = type(getattr(n, "ctx", None)).__name__
             if got != want:
@@ -353,7 +403,7 @@ def structure_violations(tree, src=None):
             if l0 < 1 or c0 < 0:
                 out.append(f"{tn} span start {l0}:{c0} outside source")
             if nlines is not None:
-                if l1 > nlines or (l1 <= nlines and c1 > len(lines[l1 - 1]) + 1):
+                if l1 > nlines + 1 or (l1 <= nlines and c1 > len(lines[l1 - 1]) + 1):
                     out.append(f"{tn} span end {l1}:{c1} outside source")
     return out
 
@@ -384,10 +434,8 @@ def c04(X, src, mode="exec", translation=None):
             with warnings.catch_warnings():
                 warnings.simplefilter("ignore")
                 compile(text, "<verif>", "exec" if mode == "exec" else "eval")
-        except SyntaxError as e3:
-            if e3.msg == e.msg:
-                return None
-            return {"kind": "compile-error-differs", "observed": e.msg, "expected": e3.msg}
+        except SyntaxError:
+            return None   # the written-out Python is rejected as well
         return {"kind": "compile-rejects-tree-only", "observed": e.msg, "expected": "written-out Python compiles"}
     except RecursionError:
         return None
